@@ -487,6 +487,38 @@ def run(ctx):
         else:
             r.ok("%s: CONFIG is dispatched before %d uses of the command configuration" % (ci.short, len(uses)))
     ctx.borrow("c05", "C05-R8", "C03-R17", "'first parsable default': whether a default sub-command can parse the line is decided on a parser of its own - a configuration does not keep one default parser for all commands and threads (an overlapping parse makes a parsable default count as unparsable) (same rule as C05-R8)")
+    # ---------------------------------------------------------------- R18
+    r = ctx.rule("C03-R18", "OWNER", "'replacing a name by any of its aliases' - and by no other command's: a list a configuration object goes on changing in place (add_alias, "
+                 "add_..., item stores) is its own - no method binds such a field to a list the caller passed in (two commands configured from one alias list would share every "
+                 "alias added to either later)", reference=10)
+    n18 = 0
+    for c_ in sorted(p.classes.values(), key=lambda k: k.qualname):
+        if not c_.module.name.startswith(("clikit.api.config", "clikit.api.command", "clikit.config")):
+            continue
+        mutated = set()
+        for m_ in c_.methods.values():
+            for x in q.calls(m_):
+                if isinstance(x.func, ast.Attribute) and x.func.attr in q.MUTATORS and is_self_attr(x.func.value):
+                    mutated.add(x.func.value.attr)
+            for n_ in walk_no_nested(m_.node):
+                if isinstance(n_, (ast.Assign, ast.Delete)):
+                    for t in n_.targets:
+                        if isinstance(t, ast.Subscript) and is_self_attr(t.value):
+                            mutated.add(t.value.attr)
+        for f_ in sorted(mutated):
+            n18 += 1
+            bad = None
+            for m_ in c_.methods.values():
+                for n_ in walk_no_nested(m_.node):
+                    if isinstance(n_, ast.Assign) and isinstance(n_.value, ast.Name) and n_.value.id in m_.params and n_.value.id != "self" and any(is_self_attr(t, f_) for t in n_.targets):
+                        bad = (m_, n_)
+            if bad:
+                r.fail(bad[0], bad[1], norm(bad[1]), "%s keeps the caller's object in self.%s, a field that other methods of %s change in place: whoever else holds that list (another command "
+                       "configured from the same list) sees every later addition - e.g. an alias added to one command also selects the other" % (bad[0].short, f_, c_.name))
+            else:
+                r.ok("%s.%s: changed in place, never bound to a caller's object" % (c_.name, f_))
+    ctx.require(n18 >= 1, "no configuration field that is changed in place was found")
+
     return ctx.results
 
 
